@@ -17,7 +17,7 @@ CHECKS = {
 # family fragments: checks/reg_<family>.py may define ENGINES (list), CHECKS (dict), NOT_APPLICABLE (dict)
 import glob as _glob, importlib.util as _u, os as _os
 # only integrated families are listed in MANIFEST.json
-INTEGRATED = ["dkv", "partition", "compaction", "align", "sstwal", "ordered", "timers", "cluster", "store", "keyedstate", "rescale", "savepoint", "pipeline", "splitter"]
+INTEGRATED = ["dkv", "partition", "compaction", "align", "sstwal", "ordered", "timers", "cluster", "store", "keyedstate", "rescale", "savepoint", "pipeline", "splitter", "membership"]
 for _f in sorted(_glob.glob(_os.path.join(_os.path.dirname(__file__), "reg_*.py"))):
     if _os.path.basename(_f)[4:-3] not in INTEGRATED:
         continue
